@@ -8,18 +8,35 @@ comparer-result sanitiser (C01) and the credit scaling of raw_check (C04), C09's
 C10's parse actions and reset discipline, its scopes are the default tables of C11, the names it admits beyond
 the configured ones are exactly C13's numbered-variable instances, and its gate on `ok` relies on C01's sanitiser
 emitting only the canonical values.  A change that breaks such
-a shared mechanism breaks both properties, so the check of either must report it.  `run.run_rules` imports the
+a shared mechanism breaks both properties, so the check of either must report it.
+
+Fourth wave of seeds (changes placed in modules a property's mechanism merely passes through): the value of a matrix power
+(C03, C04, C10, C14, C19) depends on the process-wide negative-power switch being restored on every exit (C11.D8); the
+value of elementary functions on the numpy error state (C02.D6 -> C03); a multi-input result structure on the refusal of
+lists by single-input graders (C02.D3 -> C01); refusing sibling names on the scrub before the student's evaluation
+(C09.D4 -> C02: the anticipated error class); the best alternative on the full loop over the entries of an expect tuple
+(C08.D1 -> C07); results on being fresh objects (C11.D9 -> C08, C18); histories on cached parse results staying unmodified
+(C10.D5 -> C11); sample ranges on the validators of the range options (C20.D6 -> C12); comparer verdicts on the consolidation
+over samples and on the tolerance string (C04.D3/D5 -> C16); the summation scopes on the per-instance copy of the default
+tables (C11.D7 -> C19).  `run.run_rules` imports the
 listed rules of the related module under the id `<prop>.REL.<original id>` (same obligations, same floors).
 """
 
 RELATED = {
-    'C01': {'C17': ('D2.', 'D3.'), 'C11': ('D5.',)},
-    'C02': {'C13': ('D1.',), 'C10': ('D2.',), 'C14': ('D1.',)},
-    'C08': {'C01': ('D3.',), 'C04': ('D4.',)},
+    'C01': {'C17': ('D2.', 'D3.'), 'C11': ('D5.',), 'C02': ('D3.',)},
+    'C02': {'C13': ('D1.',), 'C10': ('D2.',), 'C14': ('D1.',), 'C09': ('D4.',)},
+    'C03': {'C11': ('D8.',), 'C02': ('D6.',)},
+    'C04': {'C01': ('D3.',), 'C11': ('D8.',)},
+    'C07': {'C08': ('D1.',)},
+    'C08': {'C01': ('D3.',), 'C04': ('D4.',), 'C11': ('D9.',)},
     'C09': {'C10': ('D1.', 'D2.', 'D3.'), 'C11': ('D7.',), 'C13': ('D5.',), 'C01': ('D3.',)},
-    'C04': {'C01': ('D3.',)},
-    'C16': {'C04': ('D1.',)},
-    'C18': {'C08': ('D2.', 'D3.')},
-    'C19': {'C04': ('D1.', 'D2.', 'D3.')},
+    'C10': {'C11': ('D8.',)},
+    'C11': {'C10': ('D5.',)},
+    'C12': {'C20': ('D6.',)},
+    'C14': {'C11': ('D8.',)},
     'C15': {'C02': ('D5.', 'D6.')},
+    'C16': {'C04': ('D1.', 'D3.', 'D5.')},
+    'C17': {'C02': ('D2.',)},
+    'C18': {'C08': ('D2.', 'D3.'), 'C11': ('D9.',)},
+    'C19': {'C04': ('D1.', 'D2.', 'D3.'), 'C11': ('D7.', 'D8.')},
 }
